@@ -196,6 +196,27 @@ pub fn order(depth: usize) -> Value {
             }
         }
     }
+    // statements that arrive in ONE batch are planned with the statistics taken before the batch: the table still looks empty
+    // to the optimizer when the SELECT is planned, every plan costs 0 and the extractor may pick any member of a class (H42)
+    for e in [Engine::Disk { block: 64, rowset: 1 }, Engine::Mem] {
+        let vals = [5, 3, 9, 1, 7, 2, 8, 4, 6, 10, 12, 11];
+        let ins = format!("insert into sb values {}", vals.iter().map(|a| format!("({a}, {})", a % 3)).collect::<Vec<_>>().join(","));
+        for (q, cols) in [("select a, count(*) from sb group by a order by a", 2usize), ("select a, b from sb order by a", 2), ("select a from sb where b < 2 order by a desc", 1)] {
+            let sqls = vec!["create table sb(a int primary key, b int)".to_string(), format!("{ins}; {q}")];
+            tried += 1;
+            let outs = match run(e, &sqls, &[]) { Ok(o) => o, Err(err) => return found_raw(tried, e, &sqls, &[], 1, "the session to run".into(), err) };
+            match &outs[1] {
+                Ok(rows) => {
+                    // the batch returns the INSERT's count row, then the rows of the SELECT
+                    let got: Vec<i64> = rows.iter().skip(1).filter(|r| r.len() == cols).filter_map(|r| r[0].parse().ok()).collect();
+                    let mut want: Vec<i64> = vals.iter().filter(|a| !q.contains("b < 2") || *a % 3 < 2).map(|a| *a as i64).collect();
+                    want.sort(); if q.contains("desc") { want.reverse(); }
+                    if got != want { if let Some(v) = found(tried, e, &sqls, &[], 1, format!("the keys in order: {want:?}"), format!("{got:?}")) { return v; } }
+                }
+                Err(err) => { if let Some(v) = found(tried, e, &sqls, &[], 1, "an ordered result".into(), format!("error: {err}")) { return v; } }
+            }
+        }
+    }
     // more rows than one processing window (1024): full sort on two keys, LIMIT / OFFSET far into the order
     for e in [Engine::Mem, Engine::Disk { block: 4096, rowset: 1 }] {
         let nrows = 2500i64;
@@ -544,6 +565,35 @@ pub fn join(depth: usize) -> Value {
                         Ok(got) => { if let Some(v) = found(tried, e, &sqls, &[], q0 + j, format!("{want:?}"), format!("{:?}", sorted(got.clone()))) { return v; } },
                         Err(err) => { if let Some(v) = found(tried, e, &sqls, &[], q0 + j, format!("{want:?}"), format!("error: {err}")) { return v; } },
                     }
+                }
+            }
+        }
+    }
+    // join keys of different numeric types: INT = BIGINT, INT = DOUBLE (H41)
+    for e in [Engine::Mem, Engine::Disk { block: 64, rowset: 1 }] {
+        let l: Vec<Row> = vec![vec![Some(1), Some(10)], vec![Some(2), Some(11)], vec![None, Some(12)], vec![Some(2), Some(13)]];
+        let r: Vec<Row> = vec![vec![Some(1), Some(20)], vec![Some(3), Some(21)], vec![None, Some(22)], vec![Some(2), Some(23)]];
+        let eq = |x: &Row, y: &Row| match (x[0], y[0]) { (Some(a), Some(c)) => Some(a == c), _ => None };
+        for rty in ["bigint", "double"] {
+            let mut sqls = vec!["create table l(a int, b int)".to_string(), format!("create table r(c {rty}, d int)"), insert("l", &l), insert("r", &r)];
+            let q0 = sqls.len();
+            let mut wants: Vec<Vec<Vec<String>>> = vec![];
+            for kind in ["inner", "left", "right", "full"] {
+                sqls.push(format!("select a, b, d from l {kind} join r on a = c"));
+                wants.push(sorted(join_oracle(&l, &r, kind, &eq).into_iter().map(|row| vec![row[0].clone(), row[1].clone(), row[3].clone()]).collect()));
+            }
+            let has = |x: &Row| r.iter().any(|y| eq(x, y) == Some(true));
+            sqls.push("select a, b from l where exists (select * from r where c = a)".into());
+            wants.push(sorted(strs(&l.iter().filter(|x| has(x)).cloned().collect::<Vec<_>>())));
+            sqls.push("select a, b from l where not exists (select * from r where c = a)".into());
+            wants.push(sorted(strs(&l.iter().filter(|x| !has(x)).cloned().collect::<Vec<_>>())));
+            tried += wants.len() as u64;
+            let outs = match run(e, &sqls, &[]) { Ok(o) => o, Err(err) => return found_raw(tried, e, &sqls, &[], sqls.len() - 1, "the session to run".into(), err) };
+            for (j, want) in wants.iter().enumerate() {
+                match &outs[q0 + j] {
+                    Ok(got) if sorted(got.clone()) == *want => {}
+                    Ok(got) => { if let Some(v) = found(tried, e, &sqls, &[], q0 + j, format!("{want:?}"), format!("{:?}", sorted(got.clone()))) { return v; } },
+                    Err(err) => { if let Some(v) = found(tried, e, &sqls, &[], q0 + j, format!("{want:?}"), format!("error: {err}")) { return v; } },
                 }
             }
         }
